@@ -111,6 +111,36 @@ def main():
     check("the stream thread waits for a stream frame without timeout -> foreverGets of its body",
           mutate("comm.py", "            frame = self._q_stream.get(block=True, timeout=timeout)", "            frame = self._q_stream.get(block=True)"),
           lambda t: any('"stream"' in r and ".stream, [.stream], []" in r for r in rows(t, "threads")))
+    # round 4: what `Lock` IS in the module decides (R4-C-M1), a lock the table does not know is named (C12-r4m1)
+    for rel in ("comm.py", "nxscope.py", "dev.py", "intf/dummy.py"):
+        check(f"{rel}: `from contextlib import nullcontext as Lock` -> missing site naming the import",
+              mutate(rel, "from threading import Lock\n" if rel != "intf/dummy.py" else "from threading import Event, Lock\n",
+                     "from contextlib import nullcontext as Lock\n" if rel != "intf/dummy.py" else
+                     "from threading import Event\nfrom contextlib import nullcontext as Lock\n"),
+              lambda t: "translator_site_missing_Locks_" in t and "contextlib.nullcontext" in t)
+    check("comm.py: `Lock` rebound by a module-level assignment after the import -> missing site",
+          mutate("comm.py", "from threading import Lock\n", "from threading import Lock\nimport contextlib\nLock = contextlib.nullcontext\n"),
+          lambda t: "translator_site_missing_Locks_" in t and "assigned in the module" in t)
+    check("a second lock attribute (CommHandler._channels_div_lock) -> missing site naming it, no crash",
+          mutate("comm.py", "        self._channels_lock = Lock()\n", "        self._channels_lock = Lock()\n        self._channels_div_lock = Lock()\n"),
+          lambda t: "translator_site_missing_Locks_unknown_lock_attribute_CommHandler__channels_div_lock" in t)
+    check("stream_unsub drains the queue with a blocking get() under the queue lock -> unbounded get, held = [queue]",
+          mutate("nxscope.py", "                if subq in sub:\n                    self._sub_q[i].remove(subq)\n",
+                 "                if subq in sub:\n                    self._sub_q[i].remove(subq)\n            while not subq.empty():\n                subq.get()\n"),
+          lambda t: any('"stream_unsub"' in r and "[.queue]" in r and ".get, .sub, false" in r for r in rows(t, "blocking")))
+    # harmless spellings of the same constructor leave the table alone (only the import facts are the same too)
+    for label, old, new in (("`import threading` + `threading.Lock()`", "from threading import Lock\n", "import threading\n"),
+                            ("`from threading import Lock as _L`", "from threading import Lock\n", "from threading import Lock as _L\n")):
+        d = mutate("dev.py", old, new)
+        p2 = os.path.join(d, "src", "nxslib", "dev.py")
+        src = open(p2).read().replace("= Lock()", "= threading.Lock()" if "import threading" in new else "= _L()")
+        open(p2, "w").write(src)
+        t = gen_locks(d).text()
+        shutil.rmtree(d)
+        ok = t == base
+        print(("ok   " if ok else "FAIL ") + f"dev.py: {label}: lock table unchanged (no false alarm)")
+        if not ok:
+            fails.append(label)
     # the reviewer's edit E-C12-3 (dedent inside `NxscopeHandler.stream_stop`, no lock scope involved) leaves the lock
     # table alone by design: it is seen by Gen/CfgShape (streamStartStopShape, block structure) and the source pins
     d = mutate("nxscope.py", "            # stop stream thread\n            self._thrd.thread_stop()\n\n            self._stream_started = False",
